@@ -920,3 +920,5 @@ def plan(tier):
         "shrink": "ddmin",
         "budget_s": 170 if quick else 1800,
     }
+
+RULE += (" The asynchronous histories (net_async) run over a callback-level dispatcher double and over the library's own AsyncoreConnectionDispatcher (socket double, asyncore's event methods driven by the history).")
